@@ -211,7 +211,15 @@ func parseString(s *sqliState) int {
 }
 
 func parseWord(s *sqliState) int {
-	length := strLenCSpn(s.input[s.pos:], s.length-s.pos, wordAcceptTable)
+	// Only the first tokenSize-1 bytes of a word are kept in the token and
+	// inspected below, so look that far first: a keyword in front of '.' or
+	// '`' ends the token early, and scanning the whole rest of the word for
+	// each of them is quadratic on inputs like "or.or.or.or...".
+	limit := s.length - s.pos
+	if limit > tokenSize {
+		limit = tokenSize
+	}
+	length := strLenCSpn(s.input[s.pos:], limit, wordAcceptTable)
 	s.current.assign(sqliTokenTypeBareWord, s.pos, length, s.input[s.pos:])
 
 	// now we need to look inside what we good for "." and "`"
@@ -228,6 +236,11 @@ func parseWord(s *sqliState) int {
 				return s.pos + i
 			}
 		}
+	}
+
+	// no keyword in front: the word goes on to its real end
+	if length == tokenSize {
+		length += strLenCSpn(s.input[s.pos+length:], s.length-s.pos-length, wordAcceptTable)
 	}
 
 	// do normal lookup with word including '.'
